@@ -4,7 +4,8 @@ import itertools
 import random
 import warnings
 from bounded.common import Run
-from pywbem import CIMInstance, CIMInstanceName, CIMProperty, CIMError, CIMClassName, CIMClass
+from pywbem import CIMInstance, CIMInstanceName, CIMProperty, CIMError, CIMClassName, CIMClass, CIMQualifier, \
+    CIMQualifierDeclaration
 from pywbem_mock import FakedWBEMConnection
 
 warnings.simplefilter('ignore')
@@ -18,7 +19,20 @@ R = Run('association graphs over 12 classes (binary/ternary, key/non-key refs, s
         'missing object as source x all (ResultClass, Role) and all filter tuples with <= 2 of the 4 associator '
         'filters set (+ seeded 3/4-filter tuples; thorough: full product on 6 core graphs; random graphs: seeded '
         'tuples only), values = related/unrelated/differently-cased/non-existing names; Open/Pull and Iter '
-        'variants; class level: 14 target names x filter tuples with <= 2 filters set + seeded deeper ones')
+        'variants; class level: 14 target names x filter tuples with <= 2 filters set + seeded deeper ones; '
+        'HISTORIES on one connection against a model of what is stored (classes with superclass links per namespace, '
+        'instances with reference values), a query round after every change, every round re-asking one matrix fixed '
+        'per history (quick: seeded sample that always holds the class names whose subtrees change, 7 sources incl. '
+        'those just touched; thorough: all single filters + seeded pairs/deeper on all sources, full <=2-filter matrix '
+        'in the CreateClass history), instance level + class level (2 readings: inherited qualifier, per-end-pair) + '
+        'Open/Pull/Iter + symmetry + same query twice (equal, no shared objects, spoiling the first answer changes '
+        'nothing): subclass of association/result/endpoint class added, populated, deleted and re-created elsewhere '
+        'in the tree through each of CreateClass / add_cimobjects / compile_mof_string (3 histories, 2 namespaces '
+        'with the same names at other places in the tree); 4 namespaces with same-named classes in 2 different trees, '
+        'namespaces removed and re-added with the other tree; instances written through the 3 ways, reference values '
+        'modified, paths reused; ModifyClass directly and through MOF redefinition; seeded random histories over 11 '
+        'kinds of change (quick 2 x 8 steps, thorough 8 x 25); probes: MOF redefinition in a non-default namespace, '
+        'MOF instance after class change')
 
 NSS = ('root/a', 'root/b', 'root/c')
 MOF = '''
@@ -1054,7 +1068,6 @@ class Spec:
                                         ' : ' + self.parent if self.parent else '', body)
 
     def cimclass(self):
-        from pywbem import CIMQualifier
         props = []
         if self.idkey:
             props.append(CIMProperty('Id', None, type='string', qualifiers={'Key': CIMQualifier('Key', True)}))
@@ -1066,7 +1079,6 @@ class Spec:
 
 
 def qual_decls():
-    from pywbem import CIMQualifierDeclaration
     return [CIMQualifierDeclaration('Association', 'boolean', value=False, scopes={'ASSOCIATION': True},
                                     overridable=False, tosubclass=True),
             CIMQualifierDeclaration('Key', 'boolean', value=False, scopes={'PROPERTY': True, 'REFERENCE': True},
@@ -1495,9 +1507,10 @@ class Hist:
                 for ns in nss:
                     self.q_class(ns, tgt, flt)
         picks = [(self.rnd.choice(srcs), self.rnd.choice(self.flts)) for _ in range(2 if self.quick else 8)]
-        for src, flt in picks:
+        for k, (src, flt) in enumerate(picks):
             self.repeat(src, flt)
-            self.pulls(src, flt)
+            if k % 2 == 0 or not self.quick:
+                self.pulls(src, flt)
         self.repeat_class(self.rnd.choice(nss), self.rnd.choice(self.targets[:-2]))
         self.check_stores()
 
@@ -1800,17 +1813,11 @@ class Hist:
 
 
 # ---------------------------------------------------------------- the histories
-HIST_TIMES = []
-
-
 def run_history(fn, *a):
-    import time
-    t0, c0 = time.time(), R.cases
     try:
         fn(*a)
-    except Abort:
+    except Abort:       # a step or a store check failed (recorded); the rest of that history would only echo it
         pass
-    HIST_TIMES.append((fn.__name__, a[0] if isinstance(a[0], (str, int)) else '', R.cases - c0, round(time.time() - t0, 2)))
 
 
 def hist_subclass_ways(way, rnd, quick):
@@ -2299,8 +2306,6 @@ def main():
     histories(rnd, quick)
     for vid in sorted(PENDING, key=lambda v: (v.startswith('known:'), v)):
         R.violation(vid, **PENDING[vid])
-    import sys
-    print(HIST_TIMES, file=sys.stderr)
     R.finish()
 
 
